@@ -784,7 +784,7 @@ impl WriterSet {
 
         #[cfg(feature = "verif-hooks")]
         crate::verif::pause("rollover:before-index-swap");
-        let (closed_event_index, closed_partition_index, closed_stream_index) = {
+        let (closed_event_index, closed_partition_index, closed_stream_index, live_indexes_guard) = {
             let mut indexes = self.indexes.blocking_write();
             for PendingIndex {
                 event_id,
@@ -828,6 +828,7 @@ impl WriterSet {
                 closed_event_index,
                 closed_partition_index,
                 closed_stream_index,
+                indexes,
             )
         };
 
@@ -844,6 +845,10 @@ impl WriterSet {
         crate::verif::pause("rollover:between-add-segments");
         self.reader_pool
             .add_bucket_segment(self.bucket_segment_id, &self.reader, None, None, None);
+        // Readers look for an event in the live indexes first and in the reader pool second. The
+        // live indexes stay locked until the sealed segment is installed in the reader pool,
+        // otherwise its events are in neither place for a moment.
+        drop(live_indexes_guard);
         #[cfg(feature = "verif-hooks")]
         crate::verif::pause("rollover:end");
 
